@@ -35,6 +35,19 @@ impl VotingProposalBuilder {
         Ok(())
     }
 
+    /// signers declared by the script witnesses of the proposals (as for certificates, withdrawals and votes)
+    pub(crate) fn get_required_signers(&self) -> Ed25519KeyHashes {
+        let mut set = Ed25519KeyHashes::new();
+        for (_, script_wit) in &self.proposals {
+            if let Some(script_wit) = script_wit {
+                if let Some(required_signers) = script_wit.get_required_signers() {
+                    set.extend_move(required_signers);
+                }
+            }
+        }
+        set
+    }
+
     pub fn get_plutus_witnesses(&self) -> PlutusWitnesses {
         let tag = RedeemerTag::new_voting_proposal();
         let mut scripts = PlutusWitnesses::new();
